@@ -34,9 +34,9 @@ CONSTANTS
   Timers,       \* BOOLEAN: timer driven steps (negotiate/idle/stall timeouts) enabled
   MaxPings,     \* number of ticks of pingHandler's ticker
   Scenarios,    \* set of scenario records, one is chosen in Init
-  FixEarly,     \* repair: Connected() is false until the handlers run
+  FixEarly,     \* repair: when start() fails before the handlers run the output queues are drained
   FixStall,     \* repair: stallHandler waits for inQuit AND outQuit
-  FixLatePut    \* repair: peer-internal blocking puts / waits also select on quit
+  FixLatePut    \* repair: QueueMessage selects on quit and drains behind a finished queueHandler
 
 \* protocol version thresholds (wire/protocol.go, peer/peer.go)
 MinAcceptablePV == 209
@@ -89,7 +89,7 @@ HasDone(it) == it.k \in {"msg", "reject"}
 
 Goto(p, l)  == pc' = [pc EXCEPT ![p] = l]
 
-Connected   == disc = 0 /\ (FixEarly => started)
+Connected   == disc = 0
 
 AllMsgsOf(sc0) == UNION {{sc0.plan[s][i] : i \in 1..Len(sc0.plan[s])} : s \in Senders}
 AllMsgs == AllMsgsOf(scn)
@@ -155,7 +155,7 @@ Init == \E s \in Scenarios : InitFor(s)
 (* Disconnect(): atomic flag, then conn.Close(), then close(quit).
    Callers enter at "d1" and continue at AfterDisc(p).                     *)
 
-AfterDisc(p) == CASE p = "st" -> "done"
+AfterDisc(p) == CASE p = "st" -> IF FixEarly THEN "sdw" ELSE "done"
                   [] p = "ih" -> "inq"
                   [] p = "oh" -> "loop"
                   [] p = "sh" -> "loop"
@@ -338,7 +338,7 @@ StErr ==
   /\ UNCHANGED <<scn, connV, flagV, hsV, chanV, locV, histV>>
 StQuit ==
   /\ pc["st"] = "wait" /\ quit
-  /\ Goto("st", "done")
+  /\ Goto("st", IF FixEarly THEN "sdw" ELSE "done")
   /\ UNCHANGED <<scn, connV, flagV, hsV, chanV, locV, histV>>
 StTimeout ==
   /\ Timers /\ pc["st"] = "wait"
@@ -353,6 +353,50 @@ PutOq(it) == /\ Len(oq) < Cap
              /\ putSeq' = IF it.k = "msg" THEN Append(putSeq, it.id) ELSE putSeq
 
 QhGone == pc["qh"] \in {"dq", "done"}     \* queueHandler is past its main loop
+
+Signal(it) == IF it.k = "msg" THEN doneCnt' = [doneCnt EXCEPT ![it.id] = @ + 1] /\ UNCHANGED rjDone
+              ELSE IF it.k = "reject" THEN rjDone' = rjDone + 1 /\ UNCHANGED doneCnt
+              ELSE UNCHANGED <<doneCnt, rjDone>>
+
+\* empty outputQueue without sending, signalling every done channel found
+CountIn(q, it) == Cardinality({i \in 1..Len(q) : q[i] = it})
+DrainOq == /\ doneCnt' = [m \in AllMsgs |-> doneCnt[m] + CountIn(oq, Item("msg", m))]
+           /\ rjDone' = rjDone + CountIn(oq, Item("reject", 0))
+           /\ oq' = <<>>
+
+(* QueueMessageWithEncoding behind the Connected() test, for caller p at label l.
+   Unrepaired: a blocking put.  Repaired (FixLatePut): the put selects on quit
+   (the message is then reported done at once), and when the message is queued
+   and quit is found closed the caller empties the queue itself: queueHandler may
+   already be past its final drain (or was never started).                      *)
+QmPut(p, l, it, nxt, own) ==
+  /\ pc[p] = l
+  /\ \/ /\ PutOq(it)
+        /\ latePut' = (latePut \/ (own /\ ~FixLatePut /\ QhGone))
+        /\ Goto(p, IF FixLatePut THEN l \o "2" ELSE nxt)
+        /\ UNCHANGED <<doneCnt, rjDone>>
+     \/ /\ FixLatePut /\ quit
+        /\ Signal(it)
+        /\ Goto(p, nxt)
+        /\ UNCHANGED <<oq, putSeq, latePut>>
+  /\ UNCHANGED <<scn, connV, flagV, hsV, sq, sdq, sc, invq, locV, safe, wireSeq, shEarly, cbBad>>
+QmAfter(p, l, nxt) ==
+  /\ pc[p] = l \o "2"
+  /\ IF quit THEN DrainOq ELSE UNCHANGED <<oq, doneCnt, rjDone>>
+  /\ Goto(p, nxt)
+  /\ UNCHANGED <<scn, connV, flagV, hsV, sq, sdq, sc, invq, locV, safe, putSeq, wireSeq, shEarly, latePut, cbBad>>
+
+\* repaired start(): the handlers that would drain the queues on shutdown never
+\* ran; wait until the peer is marked disconnected, then drain
+StWaitQuit ==
+  /\ pc["st"] = "sdw" /\ quit
+  /\ Goto("st", "sdr")
+  /\ UNCHANGED <<scn, connV, flagV, hsV, chanV, locV, histV>>
+StDrain ==
+  /\ pc["st"] = "sdr"
+  /\ DrainOq /\ invq' = <<>>
+  /\ Goto("st", "done")
+  /\ UNCHANGED <<scn, connV, flagV, hsV, sq, sdq, sc, locV, safe, putSeq, wireSeq, shEarly, latePut, cbBad>>
 
 ---------------------------------------------------------------------------
 (* inHandler *)
@@ -406,16 +450,8 @@ IhPongChk ==              \* QueueMessage(pong, nil): Connected()?
   /\ pc["ih"] = "pongchk"
   /\ Goto("ih", IF Connected THEN "pongput" ELSE "cb")
   /\ UNCHANGED <<scn, connV, flagV, hsV, chanV, locV, histV>>
-IhPongPut ==
-  /\ pc["ih"] = "pongput"
-  /\ PutOq(Item("pong", 0))
-  /\ latePut' = (latePut \/ QhGone)
-  /\ Goto("ih", "cb")
-  /\ UNCHANGED <<scn, connV, flagV, hsV, sq, sdq, sc, invq, locV, doneCnt, safe, wireSeq, rjDone, shEarly, cbBad>>
-IhPongEscape ==           \* repair only
-  /\ FixLatePut /\ pc["ih"] = "pongput" /\ quit
-  /\ Goto("ih", "cb")
-  /\ UNCHANGED <<scn, connV, flagV, hsV, chanV, locV, histV>>
+IhPongPut   == QmPut("ih", "pongput", Item("pong", 0), "cb", TRUE)
+IhPongAfter == QmAfter("ih", "pongput", "cb")
 
 IhCallback ==             \* observable cb(<kind>): application listener runs
   /\ pc["ih"] = "cb"
@@ -434,18 +470,14 @@ IhRjSpawn ==              \* go func() { doneChan <- struct{}{} }()
   /\ rjDone' = rjDone + 1
   /\ Goto("ih", "rjwait")
   /\ UNCHANGED <<scn, connV, flagV, hsV, chanV, locV, doneCnt, safe, putSeq, wireSeq, shEarly, latePut, cbBad>>
-IhRjPut ==
-  /\ pc["ih"] = "rjput"
-  /\ PutOq(Item("reject", 0))
-  /\ latePut' = (latePut \/ QhGone)
-  /\ Goto("ih", "rjwait")
-  /\ UNCHANGED <<scn, connV, flagV, hsV, sq, sdq, sc, invq, locV, doneCnt, safe, wireSeq, rjDone, shEarly, cbBad>>
+IhRjPut   == QmPut("ih", "rjput", Item("reject", 0), "rjwait", TRUE)
+IhRjAfter == QmAfter("ih", "rjput", "rjwait")
 IhRjWait ==               \* <-doneChan
   /\ pc["ih"] = "rjwait" /\ rjDone > 0
   /\ Goto("ih", "d1")
   /\ UNCHANGED <<scn, connV, flagV, hsV, chanV, locV, histV>>
-IhRjEscape ==             \* repair only
-  /\ FixLatePut /\ pc["ih"] \in {"rjput", "rjwait"} /\ quit
+IhRjEscape ==             \* repaired PushRejectMsg: select { case <-doneChan: case <-p.quit: }
+  /\ FixLatePut /\ pc["ih"] = "rjwait" /\ quit
   /\ Goto("ih", "d1")
   /\ UNCHANGED <<scn, connV, flagV, hsV, chanV, locV, histV>>
 
@@ -457,8 +489,8 @@ IhCloseInQuit ==
 
 IhInternal == IhLoopExit \/ IhLoopGo \/ IhReadFail \/ IhBad
               \/ IhSc("sc1", "sc2") \/ IhSc("sc2", IhDispatchTo) \/ IhSc("sc3", "loop")
-              \/ IhPongChk \/ IhPongPut \/ IhPongEscape
-              \/ IhRj \/ IhRjSpawn \/ IhRjPut \/ IhRjWait \/ IhRjEscape \/ IhCloseInQuit
+              \/ IhPongChk \/ IhPongPut \/ IhPongAfter
+              \/ IhRj \/ IhRjSpawn \/ IhRjPut \/ IhRjAfter \/ IhRjWait \/ IhRjEscape \/ IhCloseInQuit
               \/ DiscFlag("ih") \/ DiscQuit("ih")
 
 ---------------------------------------------------------------------------
@@ -486,10 +518,6 @@ ShInternal == ShQuitCase(inQuit) \/ ShQuitCase(outQuit) \/ ShTimeout
 
 ---------------------------------------------------------------------------
 (* queueHandler *)
-
-Signal(it) == IF it.k = "msg" THEN doneCnt' = [doneCnt EXCEPT ![it.id] = @ + 1] /\ UNCHANGED rjDone
-              ELSE IF it.k = "reject" THEN rjDone' = rjDone + 1 /\ UNCHANGED doneCnt
-              ELSE UNCHANGED <<doneCnt, rjDone>>
 
 \* queuePacket: hand to outHandler directly, or park in pendingMsgs
 QueuePacket(it) ==
@@ -608,22 +636,14 @@ PhTick ==
   /\ pings' = pings + 1
   /\ Goto("ph", IF Connected THEN "put" ELSE "loop")
   /\ UNCHANGED <<scn, connV, flagV, hsV, chanV, cur, shIo, waiting, pending, invSend, ohMsg, sidx, iidx, histV>>
-PhPut ==
-  /\ pc["ph"] = "put"
-  /\ PutOq(Item("ping", 0))
-  /\ latePut' = (latePut \/ QhGone)
-  /\ Goto("ph", "loop")
-  /\ UNCHANGED <<scn, connV, flagV, hsV, sq, sdq, sc, invq, locV, doneCnt, safe, wireSeq, rjDone, shEarly, cbBad>>
-PhEscape ==
-  /\ FixLatePut /\ pc["ph"] = "put" /\ quit
-  /\ Goto("ph", "loop")
-  /\ UNCHANGED <<scn, connV, flagV, hsV, chanV, locV, histV>>
+PhPut   == QmPut("ph", "put", Item("ping", 0), "loop", TRUE)
+PhAfter == QmAfter("ph", "put", "loop")
 PhQuit ==
   /\ pc["ph"] = "loop" /\ quit
   /\ Goto("ph", "done")
   /\ UNCHANGED <<scn, connV, flagV, hsV, chanV, locV, histV>>
 
-PhInternal == PhTick \/ PhPut \/ PhEscape \/ PhQuit
+PhInternal == PhTick \/ PhPut \/ PhAfter \/ PhQuit
 
 ---------------------------------------------------------------------------
 (* application: senders, inventory, disconnector *)
@@ -640,11 +660,8 @@ SndChk(s) ==              \* if !p.Connected() { go func(){ doneChan <- } }
        THEN Goto(s, "put") /\ UNCHANGED doneCnt
        ELSE Goto(s, "ret") /\ doneCnt' = [doneCnt EXCEPT ![SMsg(s)] = @ + 1]
   /\ UNCHANGED <<scn, connV, flagV, hsV, chanV, locV, safe, putSeq, wireSeq, rjDone, shEarly, latePut, cbBad>>
-SndPut(s) ==              \* p.outputQueue <- outMsg{...}
-  /\ pc[s] = "put"
-  /\ PutOq(Item("msg", SMsg(s)))
-  /\ Goto(s, "ret")
-  /\ UNCHANGED <<scn, connV, flagV, hsV, sq, sdq, sc, invq, locV, doneCnt, safe, wireSeq, rjDone, shEarly, latePut, cbBad>>
+SndPut(s)   == QmPut(s, "put", Item("msg", SMsg(s)), "ret", FALSE)   \* p.outputQueue <- outMsg{...}
+SndAfter(s) == QmAfter(s, "put", "ret")
 SndRet(s) ==              \* observable qret(s, m)
   /\ pc[s] = "ret"
   /\ safe' = IF disc = 0 THEN safe \cup {SMsg(s)} ELSE safe
@@ -666,6 +683,10 @@ IvPut ==
   /\ invq' = Append(invq, Item(scn.invs[iidx], Pow2(iidx - 1)))
   /\ Goto("iv", "ret")
   /\ UNCHANGED <<scn, connV, flagV, hsV, oq, sq, sdq, sc, locV, histV>>
+IvEscape ==               \* repaired QueueInventory: select { case p.outputInvChan <- iv: case <-p.quit: }
+  /\ FixLatePut /\ pc["iv"] = "put" /\ quit
+  /\ Goto("iv", "ret")
+  /\ UNCHANGED <<scn, connV, flagV, hsV, chanV, locV, histV>>
 IvRet ==                  \* observable iret
   /\ pc["iv"] = "ret"
   /\ iidx' = iidx + 1
@@ -681,12 +702,12 @@ DcRet ==                  \* observable dret
   /\ Goto("dc", "done")
   /\ UNCHANGED <<scn, connV, flagV, hsV, chanV, locV, histV>>
 
-AppInternal == (\E s \in Senders : SndChk(s) \/ SndPut(s)) \/ IvChk \/ IvPut
+AppInternal == (\E s \in Senders : SndChk(s) \/ SndPut(s) \/ SndAfter(s)) \/ IvChk \/ IvPut \/ IvEscape
                \/ DiscFlag("dc") \/ DiscQuit("dc")
 
 ---------------------------------------------------------------------------
 
-Internal == NgInternal \/ StOk \/ StErr \/ StQuit \/ StTimeout
+Internal == NgInternal \/ StOk \/ StErr \/ StQuit \/ StTimeout \/ StWaitQuit \/ StDrain
             \/ DiscFlag("st") \/ DiscQuit("st")
             \/ IhInternal \/ ShInternal \/ QhInternal \/ OhInternal \/ PhInternal \/ AppInternal
 
@@ -705,7 +726,7 @@ Observable ==
 Next == Internal \/ Observable
 
 PeerNext(p) ==
-  CASE p = "st" -> StOk \/ StErr \/ StQuit \/ StTimeout \/ DiscFlag("st") \/ DiscConn("st") \/ DiscQuit("st")
+  CASE p = "st" -> StOk \/ StErr \/ StQuit \/ StTimeout \/ StWaitQuit \/ StDrain \/ DiscFlag("st") \/ DiscConn("st") \/ DiscQuit("st")
     [] p = "ng" -> NgInternal \/ NgReadVer \/ NgReadLoop \/ NgWriteOk("wver", "version", AfterWver)
                    \/ (nego >= AddrV2PV /\ NgWriteOk("wsa", "sendaddrv2", "wva"))
                    \/ NgWriteOk("wva", "verack", "rloop") \/ NgWrjOk
@@ -715,7 +736,7 @@ PeerNext(p) ==
                    \/ DiscFlag("sh") \/ DiscConn("sh") \/ DiscQuit("sh")
     [] p = "qh" -> QhOutput \/ QhSendDone \/ QhInv \/ QhTrickle \/ QhQuit \/ QhDrainPending \/ QhDrainQueues
     [] p = "oh" -> OhInternal \/ OhWriteOk \/ DiscConn("oh")
-    [] p = "ph" -> PhPut \/ PhEscape \/ PhQuit
+    [] p = "ph" -> PhPut \/ PhAfter \/ PhQuit
 
 \* Weak fairness on every goroutine of the peer and on an entered Disconnect
 \* call; nothing is assumed about the remote, the senders or the timers.
@@ -735,7 +756,7 @@ InQueues(m)  == \E i \in 1..Len(oq) : oq[i] = Item("msg", m)
 \* shapes of the recorded defects (see known-findings.json)
 HandshakeAborted == pc["st"] = "done" /\ ~started
 TaintEarly(m)    == HandshakeAborted /\ InQueues(m)
-BlockedPut       == \E p \in {"ih", "ph"} : pc[p] \in {"pongput", "rjput", "put"} /\ Len(oq) >= Cap /\ QhGone
+BlockedPut       == ~FixLatePut /\ \E p \in {"ih", "ph"} : pc[p] \in {"pongput", "rjput", "put"} /\ Len(oq) >= Cap /\ QhGone
 TaintLeak        == shEarly \/ latePut \/ BlockedPut
 
 TypeOK ==
@@ -789,6 +810,12 @@ QueuedBeforeDisconnectSignalled ==
 QueuedBeforeDisconnectSignalledStrict ==
   AllPeerDone /\ (\A s \in Senders : pc[s] \in {"idle", "done"}) =>
      \A m \in safe : doneCnt[m] = 1
+
+\* with both repairs: every QueueMessage call that returned is signalled exactly once
+Returned == UNION {{scn.plan[s][i] : i \in 1..(sidx[s] - 1)} : s \in Senders}
+EveryReturnedSendSignalled ==
+  AllPeerDone /\ (\A s \in Senders : pc[s] \in {"idle", "done"}) =>
+     \A m \in Returned : doneCnt[m] = 1
 
 \* after a disconnect request every goroutine of the peer ends
 Termination       == (disc = 1) ~> (AllPeerDone \/ TaintLeak)
